@@ -242,6 +242,7 @@ type WaitArgs struct {
 // sentinel is loaded with N by a late s_load_dword behind s_waitcnt lgkmcnt(0)
 // (late = 1: after waiting for the store with vmcnt(0); late = 2: with the
 // store still in flight), added, and out[gid] is stored again: a*5 + b + K + N.
+// late = 3 ends the program with an un-waited scalar load and the store outstanding.
 func WaitCount(wgSize int, late int) (*insts.KernelCodeObject, []string, error) {
 	p := New()
 	p.SLoadDwordX4(8, 0, 0)   // s[8:9] = in, s[10:11] = out
@@ -269,6 +270,20 @@ func WaitCount(wgSize int, late int) (*insts.KernelCodeObject, []string, error) 
 	p.VAddU32(7, S(10), 4)
 	p.VAddcU32(8, Imm(0), 8)
 	p.FlatStoreDword(7, 12)
+	if late == 3 {
+		// the program ends with a scalar load and the store still outstanding and no wait count:
+		// s_endpgm itself must wait for them before the wavefront's registers are given back
+		// (the load reads this work-group's own first input element through the scalar cache, which has
+		// never seen it: a cold miss that is still in flight when s_endpgm is reached)
+		p.SWaitcnt(0, 15)
+		p.SLshlB32(S(13), S(12), Imm(2))
+		p.SAddU32(S(14), S(8), S(13))
+		p.SAddcU32(S(15), S(9), Imm(0))
+		p.SLoadDword(22, 14, 0)
+		p.SEndpgm()
+		co, err := p.CodeObject(KernelSpec{KernargBytes: 24, SGPRs: 24, VGPRs: 16, WGIDX: true})
+		return co, p.Listing(), err
+	}
 	if late > 0 {
 		if late == 1 {
 			p.SWaitcnt(0, 15)
